@@ -114,6 +114,7 @@ THEOREMS = [
     "OllamaVerif.C09.linkedVerifiedSized_empty",
     "OllamaVerif.C09.pull_links_other",
     "OllamaVerif.C09.handlePull_success_last_attempt_verified",
+    "OllamaVerif.C09.shared_hang_no_success",
     # the chunksums response parser
     "OllamaVerif.C09.parseChunk_valid",
     "OllamaVerif.C09.parseDigest_length",
